@@ -228,3 +228,467 @@ Example subframe_elements_example :
   subframe_from_probe_elements [10; 20; 30] [(0, 2, 1); (1, 1, 2); (2, 0, 3); (2, 2, 4)] [2; 0] true
   = Some ([30; 10], [(1, 0, 1); (0, 1, 3); (0, 0, 4)]).
 Proof. vm_compute. reflexivity. Qed.
+
+(* ==================================================================================
+   SECOND PART — the glue of arim.core.Frame around the row bookkeeping above
+   (Model/FrameOps2.v; lemmas in Proofs/FrameOps2Proofs.v and Proofs/FrameCaptureProofs.v).
+
+   There a frame is what the code holds: three parallel arrays `timetraces`, `tx`, `rx`
+   (+ numsamples, probe, examination object, metadata) that every method indexes / rebuilds
+   separately and hands to Frame.__init__ again; the index argument is any numpy index
+   (np_idx of Model/ProbeOps.v: bare integer, list of integers, slice, boolean mask); a raise
+   is `Err <exception class>`.  `rows_of F` is the list of rows (tx, rx, samples) of the first
+   part, `abs_state F` = (probe, rows), `wf F` the invariant Frame.__init__ establishes.
+   The theorems (i) pin numpy's index semantics as lists of positions, (ii) characterise the
+   constructor, (iii) give every method end to end with every exception it can raise,
+   (iv) prove that each call — hence each history of calls — IS the corresponding operation
+   of the first part, so that chain_attribution holds for real call sequences with real
+   index expressions, (v) say what Frame.capture_method reports afterwards (metadata is
+   never consulted), (vi) identify the abstract per-element probe with the Probe object of
+   C16 under Probe.subprobe. *)
+From Arim Require Import Model.ProbeOps Proofs.ProbeOpsGenProofs.
+From Arim Require Import Model.Frame Model.FrameOps2 Proofs.FrameOps2Proofs Proofs.FrameCaptureProofs.
+
+(* ---- (i) one index expression, three uses ------------------------------------------- *)
+(* x[idx] = [x[p] for p in np.arange(len(x))[idx]], or both raise: the retained elements,
+   the sub-probe arrays and the mapper assignment of subframe_from_probe_elements, and the
+   timetraces / tx / rx of subframe, all see the same positions *)
+Theorem index_selects_same_positions : forall A (idx : np_idx) (l : list A),
+  np_take idx l = match np_positions idx (length l) with
+                  | Some ps => mapM (nth_error l) ps
+                  | None => None
+                  end.
+Proof. exact @np_take_by_positions. Qed.
+
+(* a slice designates Python's range over slice.indices(n) (None / negative start and stop,
+   any non-zero step), in strictly increasing or strictly decreasing order *)
+Theorem slice_is_python_range : forall (n : nat) (s e st : option Z),
+  np_positions (IdxSlice s e st) n = option_map (map Z.to_nat) (slice_indices (Z.of_nat n) s e st).
+Proof. exact slice_positions. Qed.
+
+Theorem slice_positions_strictly_monotone : forall (n : nat) (s e st : option Z) (ps : list nat),
+  np_positions (IdxSlice s e st) n = Some ps ->
+  let stp := match st with None => 1%Z | Some x => x end in
+  ((0 < stp)%Z -> StronglySorted lt ps) /\ ((stp < 0)%Z -> StronglySorted gt ps).
+Proof. exact slice_positions_sorted. Qed.
+
+(* a boolean mask: wrong length raises; otherwise exactly its True positions, increasing *)
+Theorem mask_positions_are_true_entries : forall (bs : list bool) (n : nat) (ps : list nat),
+  (np_positions (IdxMask bs) n = Some ps <-> length bs = n /\ ps = mask_select bs (seq 0 n)) /\
+  (np_positions (IdxMask bs) n = Some ps ->
+     StronglySorted lt ps /\ forall i, In i ps <-> i < n /\ nth i bs false = true).
+Proof. intros bs n ps. exact (conj (mask_positions_spec bs n ps) (mask_positions_sorted bs n ps)). Qed.
+
+(* a list of integers: entry k designates k, or n + k when negative, in the order given,
+   repetitions kept; one entry outside [-n, n) raises *)
+Theorem integer_list_positions : forall (ks : list Z) (n : nat),
+  (Forall (fun k => (- Z.of_nat n <= k < Z.of_nat n)%Z) ks ->
+     np_positions (IdxList ks) n = Some (map (norm_index n) ks)) /\
+  (Exists (fun k => ~ (- Z.of_nat n <= k < Z.of_nat n)%Z) ks -> np_positions (IdxList ks) n = None).
+Proof. exact list_positions. Qed.
+
+(* ---- (ii) Frame.__init__ ---------------------------------------------------------------- *)
+Theorem constructor_accepts_iff : forall Smp L M X tok ns (tt : list (list Smp)) ktx tx krx rx
+    (pr : list L) (ex : X) (m : M) (F : frame2 Smp L M X),
+  init_core tok ns tt ktx tx krx rx pr ex m = Ok F <->
+  tok = true /\ is_index_kind ktx = true /\ is_index_kind krx = true /\
+  Forall (fun r : list Smp => length r = ns) tt /\ length tx = length tt /\ length rx = length tt /\
+  NoDup (combine tx rx) /\ F = mkFrame2 tt ns tx rx pr ex m (length tt).
+Proof. exact init_core_Ok. Qed.
+
+(* the exception is that of the first failing check, in the order of the code *)
+Theorem constructor_error_order : forall Smp L M X tok ns (tt : list (list Smp)) ktx tx krx rx
+    (pr : list L) (ex : X) (m : M) (e : ferror),
+  init_core (S:=Smp) tok ns tt ktx tx krx rx pr ex m = Err e <->
+  (tok = false /\ e = ErrType) \/
+  (tok = true /\ is_index_kind ktx = false /\ e = ErrType) \/
+  (tok = true /\ is_index_kind ktx = true /\ is_index_kind krx = false /\ e = ErrType) \/
+  (tok = true /\ is_index_kind ktx = true /\ is_index_kind krx = true /\
+     ((~ Forall (fun r : list Smp => length r = ns) tt /\ e = ErrShape) \/
+      (Forall (fun r : list Smp => length r = ns) tt /\
+         ((length tx <> length tt /\ e = ErrShape) \/
+          (length tx = length tt /\
+             ((length rx <> length tt /\ e = ErrShape) \/
+              (length rx = length tt /\ ~ NoDup (combine tx rx) /\ e = ErrValue))))))).
+Proof. exact init_core_Err. Qed.
+
+Theorem constructor_stores_arguments : forall Smp L M X (mempty : M) tok ns (tt : list (list Smp)) ktx tx krx rx
+    (pr : list L) (ex : X) (meta : option M) (F : frame2 Smp L M X),
+  init_frame mempty tok ns tt ktx tx krx rx pr ex meta = Ok F ->
+  wf _ _ _ _ F /\ f_tt F = tt /\ f_tx F = tx /\ f_rx F = rx /\ f_probe F = pr /\ f_exam F = ex /\ f_ns F = ns /\
+  f_meta F = match meta with None => mempty | Some m => m end.
+Proof. exact init_frame_metadata. Qed.
+
+(* ---- (iii) the methods, end to end ------------------------------------------------------ *)
+(* get_timetrace(tx, rx) with any integers: the samples of THE row labelled (tx, rx), else
+   IndexError — a negative element index designates nothing (no wrap-around) *)
+Theorem get_timetrace_any_integers : forall Smp L M X (F : frame2 Smp L M X) (t r : Z) (p : list Smp),
+  wf _ _ _ _ F ->
+  (get_timetrace2 F t r = Ok p <->
+   exists a b, t = Z.of_nat a /\ r = Z.of_nat b /\ In (a, b, p) (rows_of F)) /\
+  (forall e, get_timetrace2 F t r = Err e -> e = ErrIndex).
+Proof. exact get_timetrace2_spec. Qed.
+
+(* subframe(idx), idx keeping the axis.  ps = np.arange(numtimetraces)[idx]:
+   the index raises -> its exception; else the rows at ps in that order, on the same probe,
+   time, examination object and metadata — or ValueError iff a pair is selected twice *)
+Theorem subframe_any_index : forall Smp L M X (F : frame2 Smp L M X) (idx : np_idx),
+  wf _ _ _ _ F -> not_int idx ->
+  match np_positions idx (f_ntt F) with
+  | None => subframe2 F idx = Err (idx_error idx)
+  | Some ps =>
+      exists g, Forall2 (fun i e => nth_error (rows_of F) i = Some e) ps g /\
+        ((NoDup (keys g) /\ exists F', subframe2 F idx = Ok F' /\ rows_of F' = g /\ wf _ _ _ _ F' /\
+                                        f_probe F' = f_probe F /\ same_context _ _ _ _ F F') \/
+         (~ NoDup (keys g) /\ subframe2 F idx = Err ErrValue))
+  end.
+Proof. exact subframe2_spec. Qed.
+
+(* a bare integer: IndexError out of [-n, n), else InvalidDimension (1-D timetraces) *)
+Theorem subframe_bare_integer : forall Smp L M X (F : frame2 Smp L M X) (k : Z),
+  subframe2 F (IdxInt k) =
+  if ((- Z.of_nat (length (f_tt F)) <=? k) && (k <? Z.of_nat (length (f_tt F))))%Z
+  then Err ErrDimension else Err ErrIndex.
+Proof. exact subframe2_int. Qed.
+
+(* every slice with a non-zero step and every mask of the right length is accepted *)
+Theorem subframe_slice_or_mask_never_raises : forall Smp L M X (F : frame2 Smp L M X),
+  wf _ _ _ _ F ->
+  (forall s e st, st <> Some 0%Z -> exists F', subframe2 F (IdxSlice s e st) = Ok F') /\
+  (forall bs, length bs = f_ntt F -> exists F', subframe2 F (IdxMask bs) = Ok F').
+Proof.
+  intros Smp L M X F Hwf.
+  exact (conj (fun s e st H => subframe2_slice_ok Smp L M X F s e st Hwf H)
+              (fun bs H => subframe2_mask_ok Smp L M X F bs Hwf H)).
+Qed.
+
+(* subframe_from_probe_elements(idx, make_subprobe=True), E = np.arange(numelements)[idx]:
+   the sub-probe is probe[idx], its element k being element E[k] of the probe; the rows kept
+   are exactly those with both elements in E (np.isin = membership, whatever the order and
+   repetitions of E), in the original order, with their samples, relabelled so that
+   E[new_tx] = old_tx and E[new_rx] = old_rx; context unchanged *)
+Theorem sub_elements_any_index : forall Smp L M X (F F' : frame2 Smp L M X) (idx : np_idx) (E : list nat),
+  wf _ _ _ _ F -> not_int idx ->
+  np_positions idx (length (f_probe F)) = Some E -> sub_elements2 F idx true = Ok F' ->
+  np_take idx (f_probe F) = Some (f_probe F') /\
+  Forall2 (fun e x => nth_error (f_probe F) e = Some x) E (f_probe F') /\
+  Forall2 (renumbered (list Smp) E) (filter (retained E) (rows_of F)) (rows_of F') /\
+  wf _ _ _ _ F' /\ same_context _ _ _ _ F F'.
+Proof. exact sub_elements2_spec. Qed.
+
+(* no spurious error, with or without sub-probe, repeated elements included *)
+Theorem sub_elements_accepts_every_valid_index : forall Smp L M X (F : frame2 Smp L M X) idx E mk,
+  wf _ _ _ _ F -> not_int idx -> np_positions idx (length (f_probe F)) = Some E ->
+  exists F', sub_elements2 F idx mk = Ok F'.
+Proof. exact sub_elements2_total. Qed.
+
+(* make_subprobe=False, any index incl. a bare integer (then E = [that element]): the index
+   error if any, else the retained rows unchanged on the unchanged probe (the constructor
+   cannot fail on them unless the frame had duplicates) *)
+Theorem sub_elements_without_subprobe : forall Smp L M X (F : frame2 Smp L M X) (idx : np_idx),
+  wf _ _ _ _ F ->
+  sub_elements2 F idx false =
+  rbind (retained_elements (length (f_probe F)) idx)
+        (fun E => close _ _ _ _ F (filter (retained E) (rows_of F)) (f_probe F)).
+Proof. exact sub_elements2_nomk. Qed.
+
+(* a bare integer with a sub-probe: Probe.subprobe cannot build a probe (TypeError) *)
+Theorem sub_elements_bare_integer_subprobe : forall Smp L M X (F : frame2 Smp L M X) (k : Z),
+  sub_elements2 F (IdxInt k) true =
+  if ((- Z.of_nat (length (f_probe F)) <=? k) && (k <? Z.of_nat (length (f_probe F))))%Z
+  then Err ErrType else Err ErrIndex.
+Proof. exact sub_elements2_int_mk. Qed.
+
+(* an index numpy refuses: its exception (IndexError; ValueError for a zero slice step) *)
+Theorem refused_index_raises_its_exception : forall Smp L M X (F : frame2 Smp L M X) (idx : np_idx),
+  wf _ _ _ _ F -> not_int idx ->
+  (np_positions idx (f_ntt F) = None -> step2 (Op2Subframe idx) F = Err (idx_error idx)) /\
+  (np_positions idx (length (f_probe F)) = None ->
+     forall mk, step2 (Op2Elements idx mk) F = Err (idx_error idx)).
+Proof. exact step2_index_raises. Qed.
+
+(* expansion on the three arrays (dictionary pair -> row index, row-by-row copy, unzipped
+   pairs): never raises; the result is complete, a second expansion returns the same object *)
+Theorem expand_three_arrays : forall Smp L M X (F : frame2 Smp L M X),
+  wf _ _ _ _ F ->
+  (exists F', expand2 F = Ok F' /\ wf _ _ _ _ F' /\ expand (rows_of F) = Some (rows_of F') /\
+              f_probe F' = f_probe F) /\
+  (forall F', expand2 F = Ok F' ->
+     wf _ _ _ _ F' /\ is_complete2 F' = true /\ expand2 F' = Ok F' /\ f_probe F' = f_probe F /\
+     same_context _ _ _ _ F F').
+Proof.
+  intros Smp L M X F Hwf.
+  exact (conj (expand2_total Smp L M X F Hwf) (fun F' H => expand2_idempotent Smp L M X F F' Hwf H)).
+Qed.
+
+(* apply_filter with ANY function of the 2-D array (it may mix rows): tx, rx, probe and
+   context are never touched; InvalidShape iff the filter changes the shape *)
+Theorem apply_filter_any_filter : forall Smp L M X (filt : list (list Smp) -> list (list Smp)) (F : frame2 Smp L M X),
+  wf _ _ _ _ F ->
+  apply_filter2 filt F =
+  if forallb (fun r => length r =? f_ns F) (filt (f_tt F)) && (length (filt (f_tt F)) =? f_ntt F)
+  then Ok (mkFrame2 (filt (f_tt F)) (f_ns F) (f_tx F) (f_rx F) (f_probe F) (f_exam F) (f_meta F) (f_ntt F))
+  else Err ErrShape.
+Proof. exact apply_filter2_any. Qed.
+
+(* ---- (iv) refinement -------------------------------------------------------------------- *)
+(* one call = one operation of the row model, error for error; invariant and context kept *)
+Theorem call_refines_row_model : forall Smp L M X (F : frame2 Smp L M X) (o : op2 Smp) (o' : op (list Smp)),
+  wf _ _ _ _ F -> op_rel _ _ _ _ F o o' ->
+  option_map abs_state (res_opt (step2 o F)) = step o' (abs_state F) /\
+  (forall F', step2 o F = Ok F' -> wf _ _ _ _ F' /\ same_context _ _ _ _ F F').
+Proof. exact step2_sim. Qed.
+
+(* and every call that succeeds is one (filters: row-wise ones) *)
+Theorem successful_call_is_row_operation : forall Smp L M X (F F1 : frame2 Smp L M X) (o : op2 Smp),
+  wf _ _ _ _ F -> rowwise _ o -> step2 o F = Ok F1 -> exists o', op_rel _ _ _ _ F o o'.
+Proof. exact step2_Ok_rel. Qed.
+
+Theorem history_refines_row_model : forall Smp L M X (rec : list Smp -> L * L) (ops : list (op2 Smp))
+    (F F' : frame2 Smp L M X),
+  wf _ _ _ _ F -> Forall (filter2_ok _ _ rec) ops -> run2 ops F = Ok F' ->
+  wf _ _ _ _ F' /\ same_context _ _ _ _ F F' /\
+  exists ops', run ops' (abs_state F) = Some (abs_state F') /\
+               Forall (filter_ok (list Smp) L rec) ops' /\
+               (Forall (not_expand2 _) ops -> Forall (not_expand (list Smp)) ops').
+Proof. exact run2_refines. Qed.
+
+(* chain_attribution for real call sequences: any history of subframe /
+   subframe_from_probe_elements (any numpy index, with or without sub-probe) / expand /
+   apply_filter (row-wise) on a constructed frame that does not raise *)
+Theorem history_attribution : forall Smp L M X (rec : list Smp -> L * L) (ops : list (op2 Smp))
+    (F F' : frame2 Smp L M X),
+  wf _ _ _ _ F -> Forall (filter2_ok _ _ rec) ops -> run2 ops F = Ok F' ->
+  wf _ _ _ _ F' /\ same_context _ _ _ _ F F' /\
+  (attributed_sym (list Smp) L rec (abs_state F) -> attributed_sym (list Smp) L rec (abs_state F')) /\
+  (Forall (not_expand2 _) ops -> attributed (list Smp) L rec (abs_state F) -> attributed (list Smp) L rec (abs_state F')) /\
+  (forall t r p, In (t, r, p) (rows_of F') -> exists t0 r0 p0, In (t0, r0, p0) (rows_of F) /\ rec p = rec p0).
+Proof. exact run2_attribution. Qed.
+
+(* ---- (v) Frame.capture_method ----------------------------------------------------------- *)
+(* the metadata dictionary is only carried: running any history on the same frame with
+   another dictionary gives the same outcome with that dictionary; capture_method is
+   inferred from tx / rx and ignores it (a capture method declared there has no effect) *)
+Theorem metadata_only_carried : forall Smp L M X (ops : list (op2 Smp)) (F : frame2 Smp L M X) (m : M),
+  run2 ops (with_meta _ _ _ _ F m) = rmap (fun F' => with_meta _ _ _ _ F' m) (run2 ops F) /\
+  capture_method2 (with_meta _ _ _ _ F m) = capture_method2 F.
+Proof. intros Smp L M X ops F m. exact (conj (run2_meta Smp L M X ops F m) (capture2_ignores_metadata Smp L M X F m)). Qed.
+
+(* full matrix, any duplicate-free selection of elements in any order: full matrix of the
+   sub-probe *)
+Theorem fmc_subaperture_is_fmc : forall Smp L M X (F F' : frame2 Smp L M X) (idx : np_idx) (E : list nat),
+  wf _ _ _ _ F -> Permutation (pairs_of F) (fmc (length (f_probe F))) -> not_int idx ->
+  np_positions idx (length (f_probe F)) = Some E -> NoDup E ->
+  sub_elements2 F idx true = Ok F' ->
+  Permutation (pairs_of F') (fmc (length (f_probe F'))) /\ length (f_probe F') = length E /\
+  (2 <= length E -> capture_method2 F' = Some Fmc).
+Proof. exact capture2_fmc_subaperture. Qed.
+
+(* half matrix: elements in increasing order keep the orientation, in decreasing order
+   reverse it; both are reported as hmc.  (In any other order the result is in general
+   `unsupported`: example hmc_subaperture_unsorted below.) *)
+Theorem hmc_subaperture_monotone_is_hmc : forall Smp L M X (F F' : frame2 Smp L M X) (idx : np_idx) (E : list nat),
+  wf _ _ _ _ F -> Permutation (pairs_of F) (hmc (length (f_probe F))) -> not_int idx ->
+  np_positions idx (length (f_probe F)) = Some E ->
+  sub_elements2 F idx true = Ok F' ->
+  (StronglySorted lt E -> Permutation (pairs_of F') (hmc (length (f_probe F')))) /\
+  (StronglySorted gt E -> Permutation (pairs_of F') (map swap (hmc (length (f_probe F'))))) /\
+  length (f_probe F') = length E /\
+  (StronglySorted lt E \/ StronglySorted gt E -> 1 <= length E -> capture_method2 F' = Some Hmc).
+Proof. exact capture2_hmc_subaperture. Qed.
+
+(* composed with (i): every mask and every slice *)
+Theorem hmc_subaperture_by_mask_or_slice : forall Smp L M X (F F' : frame2 Smp L M X),
+  wf _ _ _ _ F -> Permutation (pairs_of F) (hmc (length (f_probe F))) -> 1 <= length (f_probe F') ->
+  (forall bs, sub_elements2 F (IdxMask bs) true = Ok F' -> capture_method2 F' = Some Hmc) /\
+  (forall s e st, sub_elements2 F (IdxSlice s e st) true = Ok F' -> capture_method2 F' = Some Hmc).
+Proof.
+  intros Smp L M X F F' Hwf Hp Hl.
+  exact (conj (fun bs H => proj2 (capture2_hmc_mask Smp L M X F F' bs Hwf Hp H) Hl)
+              (fun s e st H => capture2_hmc_slice Smp L M X F F' s e st Hwf Hp H Hl)).
+Qed.
+
+(* any half-matrix acquisition (rows in any order, either orientation) expands, without
+   raising, to tx / rx exactly those of ut.fmc — reported as fmc — each row carrying the
+   recorded row of its pair or, failing that, of the mirrored pair *)
+Theorem expand_half_matrix_is_fmc : forall Smp L M X (F : frame2 Smp L M X) (n : nat),
+  wf _ _ _ _ F ->
+  Permutation (pairs_of F) (hmc n) \/ Permutation (pairs_of F) (map swap (hmc n)) ->
+  exists F', expand2 F = Ok F' /\ wf _ _ _ _ F' /\ pairs_of F' = fmc n /\
+             (2 <= n -> capture_method2 F' = Some Fmc) /\
+             (forall k p, In (k, p) (rows_of F') ->
+                In (k, p) (rows_of F) \/ (~ In k (pairs_of F) /\ In (swap k, p) (rows_of F))).
+Proof. exact capture2_expand_hmc. Qed.
+
+(* the same two facts in the row model of the first part (any payload type) *)
+Theorem sub_elements_of_fmc_rows : forall P L (pr sp : list L) (f g : frame P) (E : list nat),
+  Permutation (keys f) (fmc (length pr)) -> NoDup E ->
+  subframe_from_probe_elements pr f E true = Some (sp, g) -> Permutation (keys g) (fmc (length E)).
+Proof. exact sub_elements_fmc. Qed.
+
+Theorem expand_half_matrix_rows : forall P (f g : frame P) (n : nat),
+  Permutation (keys f) (hmc n) \/ Permutation (keys f) (map swap (hmc n)) ->
+  expand f = Some g -> keys g = fmc n.
+Proof. exact expand_half_matrix_keys. Qed.
+
+(* ---- (vi) the probe of a frame as the Probe object of C16 -------------------------------- *)
+(* Probe.subprobe on the whole object (locations, orientations, dimensions, shapes, dead
+   flags, PCS, frequency, bandwidth, metadata) indexes the list of per-element attribute
+   tuples with the same numpy index — so `L` above may be read as that tuple: sub-probe
+   element k has EVERY attribute of element E[k]; PCS, frequency, bandwidth are kept,
+   metadata kept or emptied; it raises exactly when the index raises *)
+Theorem subprobe_object_is_element_indexing : forall T (N : Num.Num T) (n : nat) (idx : np_idx) (sm : bool)
+    (px px' : probe_x (T:=T)),
+  wf_len n px -> ProbeOps.subprobe N idx sm px = Some px' ->
+  np_take idx (probe_elems px) = Some (probe_elems px') /\
+  Probe.p_pcs (x_core px') = Probe.p_pcs (x_core px) /\ x_freq px' = x_freq px /\ x_bw px' = x_bw px /\
+  x_meta px' = (if sm then x_meta px else []) /\
+  x_numel px' = Z.of_nat (length (probe_elems px')) /\ wf_len (length (probe_elems px')) px'.
+Proof. intros T N. exact (subprobe_object_elems N). Qed.
+
+Theorem subprobe_object_raises_iff_index_raises : forall T (N : Num.Num T) (n : nat) (idx : np_idx) (sm : bool)
+    (px : probe_x (T:=T)),
+  wf_len n px -> (ProbeOps.subprobe N idx sm px = None <-> np_positions idx n = None).
+Proof. intros T N. exact (subprobe_object_raises N). Qed.
+
+(* ---- non-vacuity of the second part ------------------------------------------------------ *)
+(* a full matrix on 4 elements; samples of row (t, r) = [label_t; label_r] with labels 10 (e + 1):
+   the samples say which physical elements recorded them; metadata = 7; no examination object *)
+Definition ex_labels : list nat := [10; 20; 30; 40].
+Definition ex_row (p : nat * nat) : list nat := [10 * (fst p + 1); 10 * (snd p + 1)].
+Definition ex_rec (r : list nat) : nat * nat := (nth 0 r 0, nth 1 r 0).
+Definition ex_fmc4 : frame2 nat nat nat unit :=
+  mkFrame2 (map ex_row (fmc 4)) 2 (map fst (fmc 4)) (map snd (fmc 4)) ex_labels tt 7 16.
+Definition ex_hmc3 : frame2 nat nat nat unit :=
+  mkFrame2 (map ex_row (hmc 3)) 2 (map fst (hmc 3)) (map snd (hmc 3)) [10; 20; 30] tt 7 6.
+
+Example ex_fmc4_constructed :
+  init_frame 0 true 2 (map ex_row (fmc 4)) KInt (map fst (fmc 4)) KUInt (map snd (fmc 4)) ex_labels tt (Some 7)
+  = Ok ex_fmc4.
+Proof. vm_compute. reflexivity. Qed.
+
+Example ex_fmc4_wf : wf _ _ _ _ ex_fmc4.
+Proof. exact (proj1 (init_frame_metadata _ _ _ _ _ _ _ _ _ _ _ _ _ _ _ _ ex_fmc4_constructed)). Qed.
+
+Example ex_hmc3_wf : wf _ _ _ _ ex_hmc3.
+Proof.
+  apply (init_core_wf nat nat nat unit true 2 (map ex_row (hmc 3)) KInt (map fst (hmc 3)) KInt (map snd (hmc 3)) [10; 20; 30] tt 7).
+  vm_compute. reflexivity.
+Qed.
+
+(* the order of the checks: a float tx wins over duplicate pairs; a wrong width over a short
+   tx; duplicates are the last thing looked at; metadata None becomes the empty dictionary *)
+Example ex_constructor_errors :
+  init_frame (S:=nat) (L:=nat) (X:=unit) 0 true 1 [[1]; [2]] KFloat [0; 0] KInt [1; 1] [] tt None = Err ErrType /\
+  init_frame (S:=nat) (L:=nat) (X:=unit) 0 true 1 [[1]; [2; 3]] KInt [0] KInt [1; 1] [] tt None = Err ErrShape /\
+  init_frame (S:=nat) (L:=nat) (X:=unit) 0 true 1 [[1]; [2]] KInt [0] KInt [1; 1] [] tt None = Err ErrShape /\
+  init_frame (S:=nat) (L:=nat) (X:=unit) 0 true 1 [[1]; [2]] KInt [0; 0] KInt [1; 1] [] tt None = Err ErrValue /\
+  init_frame (S:=nat) (L:=nat) (X:=unit) 0 false 1 [[1]; [2]] KBool [0; 0] KInt [1; 1] [] tt None = Err ErrType /\
+  option_map (fun F => f_meta F) (res_opt (init_frame (S:=nat) (L:=nat) (X:=unit) 0 true 1 [[1]; [2]] KInt [0; 1] KInt [1; 1] [] tt None)) = Some 0.
+Proof. vm_compute. repeat split; reflexivity. Qed.
+
+Example ex_positions :
+  np_positions (IdxSlice (Some (-3)%Z) None None) 4 = Some [1; 2; 3] /\
+  np_positions (IdxSlice None None (Some (-2)%Z)) 4 = Some [3; 1] /\
+  np_positions (IdxSlice (Some 1%Z) (Some (-1)%Z) None) 4 = Some [1; 2] /\
+  np_positions (IdxSlice (Some 0%Z) (Some 3%Z) (Some 0%Z)) 4 = None /\
+  np_positions (IdxMask [true; false; true; false]) 4 = Some [0; 2] /\
+  np_positions (IdxMask [true; false; true]) 4 = None /\
+  np_positions (IdxList [2; -4; 2]%Z) 4 = Some [2; 0; 2] /\
+  np_positions (IdxList [2; 4]%Z) 4 = None.
+Proof. vm_compute. repeat split; reflexivity. Qed.
+
+Example ex_get_timetrace :
+  get_timetrace2 ex_fmc4 1 0 = Ok [20; 10] /\ get_timetrace2 ex_fmc4 (-1) 0 = Err ErrIndex /\
+  get_timetrace2 ex_fmc4 4 0 = Err ErrIndex.
+Proof. vm_compute. repeat split; reflexivity. Qed.
+
+(* elements [2, -4] = physical elements 30 and 10, in that order: new element 0 is old 2 *)
+Example ex_sub_elements :
+  res_view (sub_elements2 ex_fmc4 (IdxList [2; -4]%Z) true) =
+  Ok ([1; 1; 0; 0]%Z, [1; 0; 1; 0]%Z, [[10; 10]; [10; 30]; [30; 10]; [30; 30]], [30; 10], 7) /\
+  res_view (sub_elements2 ex_fmc4 (IdxList [0; 0; 1]%Z) true) =
+  Ok ([1; 1; 2; 2]%Z, [1; 2; 1; 2]%Z, [[10; 10]; [10; 20]; [20; 10]; [20; 20]], [10; 10; 20], 7) /\
+  res_view (sub_elements2 ex_fmc4 (IdxInt (-1)%Z) false) = Ok ([3]%Z, [3]%Z, [[40; 40]], ex_labels, 7) /\
+  res_view (sub_elements2 ex_fmc4 (IdxInt 2%Z) true) = Err ErrType /\
+  res_view (sub_elements2 ex_fmc4 (IdxList [2; 4]%Z) true) = Err ErrIndex /\
+  res_view (sub_elements2 ex_fmc4 (IdxSlice None None (Some 0%Z)) false) = Err ErrValue /\
+  res_view (subframe2 ex_fmc4 (IdxList [0; -16]%Z)) = Err ErrValue /\
+  res_view (subframe2 ex_fmc4 (IdxInt 3%Z)) = Err ErrDimension.
+Proof. vm_compute. repeat split; reflexivity. Qed.
+
+(* premises of fmc_subaperture_is_fmc / hmc_subaperture_monotone_is_hmc / expand_half_matrix_is_fmc *)
+Example ex_fmc4_is_fmc : Permutation (pairs_of ex_fmc4) (fmc (length (f_probe ex_fmc4))).
+Proof. vm_compute. apply Permutation_refl. Qed.
+Example ex_hmc3_is_hmc : Permutation (pairs_of ex_hmc3) (hmc (length (f_probe ex_hmc3))).
+Proof. vm_compute. apply Permutation_refl. Qed.
+
+(* a half matrix restricted to elements in increasing / decreasing order is reported hmc; in
+   another order it is `unsupported` although no timetrace is mis-attributed *)
+Example hmc_subaperture_unsorted :
+  option_map capture_method2 (res_opt (sub_elements2 ex_hmc3 (IdxMask [true; false; true]) true)) = Some (Some Hmc) /\
+  option_map capture_method2 (res_opt (sub_elements2 ex_hmc3 (IdxSlice None None (Some (-1)%Z)) true)) = Some (Some Hmc) /\
+  option_map capture_method2 (res_opt (sub_elements2 ex_hmc3 (IdxList [1; 0; 2]%Z) true)) = Some (Some Unsupported) /\
+  option_map capture_method2 (res_opt (sub_elements2 ex_fmc4 (IdxList [3; 0; 2]%Z) true)) = Some (Some Fmc) /\
+  option_map capture_method2 (res_opt (sub_elements2 ex_fmc4 (IdxList []) true)) = Some None.
+Proof. vm_compute. repeat split; reflexivity. Qed.
+
+Example ex_expand_hmc :
+  option_map (fun F => (pairs_of F, f_tt F, capture_method2 F)) (res_opt (expand2 ex_hmc3)) =
+  Some (fmc 3, map (fun p => ex_row (Nat.min (fst p) (snd p), Nat.max (fst p) (snd p))) (fmc 3), Some Fmc).
+Proof. vm_compute. reflexivity. Qed.
+
+(* a filter that changes the number of rows or of samples is refused; one that mixes rows is
+   accepted and leaves tx, rx alone *)
+Example ex_filters :
+  res_view (apply_filter2 (@rev (list nat)) ex_hmc3) =
+  Ok ([0; 0; 0; 1; 1; 2]%Z, [0; 1; 2; 1; 2; 2]%Z, rev (map ex_row (hmc 3)), [10; 20; 30], 7) /\
+  res_view (apply_filter2 (@tl (list nat)) ex_hmc3) = Err ErrShape /\
+  res_view (apply_filter2 (map (@tl nat)) ex_hmc3) = Err ErrShape.
+Proof. vm_compute. repeat split; reflexivity. Qed.
+
+(* a history with real index expressions; its premises (history_attribution) hold *)
+Definition ex_history : list (op2 nat) :=
+  [Op2Expand; Op2Elements (IdxList [2; -3]%Z) true; Op2Filter (map (fun r => r));
+   Op2Subframe (IdxSlice None None (Some (-1)%Z)); Op2Elements (IdxMask [false; true]) false].
+
+Example ex_history_runs :
+  res_view (run2 ex_history ex_hmc3) = Ok ([1]%Z, [1]%Z, [[10; 10]], [30; 10], 7).
+Proof. vm_compute. reflexivity. Qed.
+
+Example ex_history_filters_ok : Forall (filter2_ok nat nat ex_rec) ex_history.
+Proof.
+  repeat constructor. exists (fun r => r). repeat split.
+Qed.
+
+Example ex_history_premise : attributed (list nat) nat ex_rec (abs_state ex_hmc3).
+Proof.
+  intros t r p H. vm_compute in H.
+  repeat (destruct H as [H|H]; [inversion H; subst; vm_compute; eauto|]). contradiction.
+Qed.
+
+(* metadata that "declares" anything changes nothing *)
+Example ex_metadata_ignored :
+  capture_method2 (with_meta _ _ _ _ ex_hmc3 1) = Some Hmc /\
+  res_view (run2 ex_history (with_meta _ _ _ _ ex_hmc3 1)) = Ok ([1]%Z, [1]%Z, [[10; 10]], [30; 10], 1).
+Proof. vm_compute. repeat split; reflexivity. Qed.
+
+(* a Probe object over the rationals: 3 elements, orientations known, dimensions unknown *)
+From Arim Require Import Base.NumQ.
+From Coq Require Import QArith.
+Definition ex_px : probe_x (T:=Q) :=
+  mkPX (Probe.mkProbe [(0, 0, 0); (1, 0, 0); (2, 0, 0)]%Q (Some [(0, 0, 1); (0, 0, 1); (0, 1, 0)]%Q)
+          (Probe.mkCS (5, 0, 0) (1, 0, 0) (0, 1, 0))%Q)
+       None (Some [0; 1; 1]%Z) [false; true; false] (Some 5%Q) None [] 3%Z.
+
+Example ex_px_wf : wf_len 3 ex_px.
+Proof. vm_compute. repeat split; reflexivity. Qed.
+
+Example ex_subprobe_object :
+  option_map probe_elems (ProbeOps.subprobe NumQ (IdxList [2; 0]%Z) false ex_px) =
+  Some [((2, 0, 0)%Q, (Some (0, 1, 0)%Q, (None, (Some 1%Z, false))));
+        ((0, 0, 0)%Q, (Some (0, 0, 1)%Q, (None, (Some 0%Z, false))))] /\
+  option_map (fun p => Probe.p_pcs (x_core p)) (ProbeOps.subprobe NumQ (IdxList [2; 0]%Z) false ex_px)
+  = Some (Probe.mkCS (5, 0, 0) (1, 0, 0) (0, 1, 0))%Q /\
+  ProbeOps.subprobe NumQ (IdxList [3]%Z) false ex_px = None.
+Proof. vm_compute. repeat split; reflexivity. Qed.
